@@ -25,6 +25,11 @@ Proof.
   intros Hi D. pose proof (I_c _ _ Hi) as Hc. unfold cinv, dropst, lhi in *.
   destruct (cp (C s)); auto; destruct Hc as [[? ?] ?] || destruct Hc as [? ?]; congruence.
 Qed.
+Lemma nodrop_cp s : Inv s -> cdrop (C s) = false -> cp (C s) <> DFree2 /\ cp (C s) <> DOld /\ cp (C s) <> CDead.
+Proof.
+  intros Hi D. pose proof (I_c _ _ Hi) as Hc. unfold cinv, dropst in *.
+  destruct (cp (C s)); rsplit; try discriminate; exfalso; destruct Hc as [[? ?] ?] || destruct Hc as [? ?]; congruence.
+Qed.
 Lemma live_tail s : Inv s -> cdrop (C s) = false -> live s (gtk (G s)) /\ live s (S (gtk (G s))).
 Proof.
   intros Hi D. unfold live. rewrite (nodrop_lhi _ Hi D). destruct (I_rng _ _ Hi) as (?&?&?&?&?&?). lia.
@@ -66,7 +71,7 @@ Lemma cinv_pstep s s' :
   length (absq (G s)) <= length (absq (G s')) ->
   (forall j, j < nlin B s -> rv s' j = rv s j) ->
   (forall i, i < B -> brdy (blkof s (ghk (G s))) i = true -> brdy (blkof s' (ghk (G s))) i = true) ->
-  badr (G s') (S (ghk (G s))) = badr (G s) (S (ghk (G s))) ->
+  (ghk (G s) <= gtk (G s) -> badr (G s') (S (ghk (G s))) = badr (G s) (S (ghk (G s)))) ->
   cinv B s'.
 Proof.
   intros Hi D EC EH EK ES EG Mt Mk Ml Er Ey Eb.
@@ -82,7 +87,7 @@ Proof.
   - (* CTail *) destruct Hc as (H1 & H2 & H3 & H4 & H5). repeat split; auto. intros N. destruct (H4 N); auto. right. lia.
   - (* CSpin *) destruct Hc as (H1 & H2 & H3 & H4 & H5 & H6 & H7). split; [exact H1|]. split; [apply CR; auto; lia|]. split; [exact H3|]. split; [lia|]. split; [exact H5|]. split; [exact H6|exact H7].
   - (* CCommit *) destruct Hc as (H1 & H2 & H3 & H4). split; [exact H1|]. split; [apply CR; auto|]. split; [exact H3|exact H4].
-  - (* CSetH *) destruct Hc as (H1 & H2). split; [congruence | lia].
+  - (* CSetH *) destruct Hc as (H1 & H2). split; [rewrite Eb; auto | lia].
   - (* CLenH *) destruct Hc as (H1 & H2). split; auto. lia.
   - (* CLenT *) destruct Hc as (H1 & H2 & H3). repeat split; auto. lia.
   - destruct Hc; congruence.
